@@ -311,6 +311,20 @@ func TestVerifC18(t *testing.T) {
 				}
 				check(inst, "random")
 			}
+			// Instants far from today: around the Unix epoch and before it (a
+			// device without a clock battery boots there), around the ends of
+			// the 32-bit second counters, and in distant years.
+			for _, base := range []time.Time{
+				time.Unix(0, 0), time.Unix(0, 0).Add(-time.Duration(rng.Int63n(int64(72 * time.Hour)))), time.Unix(0, 0).Add(time.Duration(rng.Int63n(int64(72 * time.Hour)))),
+				time.Date(1969, 7, 20, 20, 17, 0, 0, time.UTC), time.Date(1955+rng.Intn(14), time.Month(1+rng.Intn(12)), 1+rng.Intn(28), rng.Intn(24), rng.Intn(60), 0, 0, time.UTC),
+				time.Date(1901, 12, 13, 20, 45, 52, 0, time.UTC), time.Date(1+rng.Intn(1800), 3, 1, 12, 0, 0, 0, time.UTC),
+				time.Unix(1<<31-1, 0), time.Unix(1<<31, 0), time.Unix(1<<32, 0), time.Date(2200+rng.Intn(7000), 6, 15, rng.Intn(24), 30, 0, 0, time.UTC),
+			} {
+				for _, d := range []time.Duration{-time.Second, -1, 0, 1, time.Duration(rng.Int63n(int64(24 * time.Hour)))} {
+					check(base.Add(d), "far from today")
+					rep.Event("instants_far_from_today")
+				}
+			}
 		}
 	}
 	c18RoundTrips(rep, order)
